@@ -7,12 +7,13 @@ mod ctx;
 mod e5;
 mod envrng;
 mod explore;
+mod history;
 mod pq;
 mod refmodel;
 mod sched;
 mod util;
 
-use ctx::{machinery_error, Ctx, Tier};
+use ctx::{Ctx, Tier};
 
 fn usage() -> ! {
     eprintln!("usage: falcon-mc check <Cnn> --tier quick|thorough | replay <file> | selftest | child <what> ...");
@@ -57,13 +58,14 @@ fn main() {
                 i += 1;
             }
             // run on a big stack: key generation recurses over big-integer polynomials
+            let id2 = id.clone();
             let h = std::thread::Builder::new()
                 .stack_size(256 << 20)
                 .spawn(move || checks::run(&id, tier))
                 .unwrap();
             match h.join() {
                 Ok(()) => {}
-                Err(_) => machinery_error("check driver panicked outside a guarded region"),
+                Err(_) => ctx::driver_panicked(&id2, tier),
             }
         }
         "replay" => {
